@@ -493,6 +493,31 @@ func (pc *PartitionContext) cancelInflightReplacement(app *objects.Application, 
 	}
 }
 
+// cancelReplacementOfFailingApp unlinks the real allocation from a placeholder that is confirmed as replaced while the
+// application is failing. A real allocation placed on another node than the placeholder is registered on that node
+// and is removed from it, its ask is removed from the application.
+// The placeholder is processed as a plain removal afterwards.
+func (pc *PartitionContext) cancelReplacementOfFailingApp(app *objects.Application, placeholderKey string) {
+	for _, ph := range app.GetAllAllocations() {
+		if ph.GetAllocationKey() != placeholderKey || !ph.IsPlaceholder() {
+			continue
+		}
+		real := ph.GetRelease()
+		if real == nil {
+			return
+		}
+		ph.ClearRelease()
+		real.ClearRelease()
+		if real.GetNodeID() != ph.GetNodeID() {
+			if node := pc.GetNode(real.GetNodeID()); node != nil {
+				node.RemoveAllocation(real.GetAllocationKey())
+			}
+		}
+		app.RemoveAllocationAsk(real.GetAllocationKey())
+		return
+	}
+}
+
 // removeInflightReplacements cleans up the real allocations of inflight placeholder replacements. A replacement
 // on a different node than the placeholder is registered on that node only, until the shim confirms the release of
 // the placeholder. When the placeholders are removed with the application that confirmation never comes.
@@ -1584,6 +1609,11 @@ func (pc *PartitionContext) removeAllocation(release *si.AllocationRelease) ([]*
 	// will always exist at this point. Retrieving the queue now sidesteps this.
 	queue := app.GetQueue()
 
+	// a failing application does not start new allocations: a replacement that was in flight when the application
+	// failed is cancelled when the shim confirms the release of the placeholder
+	if release.TerminationType == si.TerminationType_PLACEHOLDER_REPLACED && app.IsFailing() {
+		pc.cancelReplacementOfFailingApp(app, allocationKey)
+	}
 	released := pc.processAllocationRelease(release, app)
 	pc.updatePhAllocationCount(released)
 	// a placeholder that is removed without its replacement being confirmed leaves the replacement half done
